@@ -1,7 +1,7 @@
 (* C16 -- property theorems only.  Each closed by [exact]; Print Assumptions beneath. *)
 From Coq Require Import List ZArith Bool String.
 Import ListNotations.
-Require Import V.gen.C16_Tables V.Lib.C16_Str V.C16.Model V.C16.Proofs V.C16.Xform.
+Require Import V.gen.C16_Tables V.Lib.C16_Str V.C16.Model V.C16.Words V.C16.Proofs V.C16.Xform.
 Open Scope Z_scope.
 Open Scope string_scope.
 
@@ -67,6 +67,14 @@ Theorem loop_state_shape :
   gen_loop_writes = map zs ["currentCount"; "currentFile"; "currentHuman"; "fileName"].
 Proof. exact eq_refl. Qed.
 Print Assumptions loop_state_shape.
+
+(* The continuation rule uses the EXTRACTED Reserved list.  It consists of documented words only
+   (a lost comma, e.g. 'not' '+-', makes an undocumented entry), and every documented word that a
+   command parser compares the current token with (extracted: gen_parser_connectives) is in it --
+   so a clause may be moved to a line of its own whatever connective it starts with. *)
+Theorem reserved_words_documented_and_complete : reserved_sound = true /\ reserved_complete = true.
+Proof. exact (conj eq_refl eq_refl). Qed.
+Print Assumptions reserved_words_documented_and_complete.
 
 (* the scanner never depends on surrounding plain spaces, whatever the text *)
 Theorem chunks_ignore_outer_spaces : forall a b s,
